@@ -58,6 +58,9 @@ structure Facts where
   -- C08: writes to / addresses taken of fields reached from a shared descriptor on the hot paths
   descriptorWriteSites : Nat
   descriptorWriteSiteList : List String
+  -- C16: stores of the encode / size functions that are not to the output buffer `b` or a local
+  encodeForeignWriteSites : Nat
+  encodeForeignWriteSiteList : List String
   -- C18
   hotPathHeapSites : Nat
   hotPathHeapSiteList : List String
@@ -89,6 +92,11 @@ def lockDiscipline (F : Facts) : Bool :=
     no encode / size / decode function assigns to, increments, or takes the address of a field reached
     from one (the two routines that choose a node's encode function run inside `newTType` only) -/
 def descriptorsReadOnly (F : Facts) : Bool := F.descriptorWriteSites == 0
+
+/-- C16: in the encode and size functions (`append*.go`, the size methods, the `appendUint*` helpers)
+    every assignment and increment is to a local variable or to an element of the output buffer `b`,
+    and every `append` / `copy` has `b` as its destination: nothing is stored through the argument -/
+def encodeWritesOnlyOutput (F : Facts) : Bool := F.encodeForeignWriteSites == 0
 
 /-- C04: `Append(buf[:0:len(buf)], v)` and `len(ret) > len(buf)` is the error test -/
 def bufferContract (F : Facts) : Bool := F.encodeCapsAtLen && F.encodeChecksLen
